@@ -323,9 +323,12 @@ def find_closures(src, open_tok, close_tok):
     m = src.matching()
     out = []
     k = src.next_sig(open_tok)
+    prev = open_tok
     while k is not None and k < close_tok:
-        if src.is_ident(k, "move"):
-            j = src.next_sig(k)
+        # a closure starts with `move |` or with a `|` in argument / initialiser position (after `(`, `,` or `=`)
+        bare = src.is_punct(k, "|") and (src.is_punct(prev, "(") or src.is_punct(prev, ",") or src.is_punct(prev, "=")) and not src.is_ident(prev, "move")
+        if src.is_ident(k, "move") or bare:
+            j = k if bare else src.next_sig(k)
             if src.is_punct(j, "|"):
                 j2 = src.next_sig(j)
                 # `||` lexes as two puncts; parameters otherwise
@@ -333,11 +336,16 @@ def find_closures(src, open_tok, close_tok):
                     j2 = src.next_sig(j2)
                 p_open, p_close = j, j2
                 j = src.next_sig(j2)
-                # optional -> Type
+                # optional -> Type; a closure whose body is a bare expression (no `-> T`, no brace) is not lifted
+                if not src.is_punct(j, "{") and not src.is_punct(j, "-"):
+                    prev = k; k = src.next_sig(k); continue
                 while not src.is_punct(j, "{"):
                     if src.is_punct(j, "(") or src.is_punct(j, "["):
                         j = m[j]
                     j = src.next_sig(j)
-                out.append({"move_tok": k, "p_open": p_open, "p_close": p_close, "body_open": j, "body_close": m[j]})
+                    if j is None or j >= close_tok: break
+                if j is not None and j < close_tok and src.is_punct(j, "{"):
+                    out.append({"move_tok": k, "p_open": p_open, "p_close": p_close, "body_open": j, "body_close": m[j]})
+        prev = k
         k = src.next_sig(k)
     return out
